@@ -277,8 +277,10 @@ def small_scope(name, level, point=False, allow_zero_cap=False):
                     for b in product(iv(0, m - 1), repeat=n):
                         yield {"type": name, "params": [0] + list(lbs) + list(ubs), "box": [list(x) for x in b]}
     elif name == "lexicographic_leq":
-        for k in range(1, 2 + (level > 1) + (1 if point else 0)):
-            for b in boxes(2 * k, 0, 2 if k > 1 else 3):
+        for k in range(1, 4 + (level > 1)):
+            if point and k > 3:
+                continue
+            for b in boxes(2 * k, 0, 3 if k == 1 else 2 if k <= 3 else 1):
                 yield {"type": name, "params": [], "box": [list(x) for x in b]}
     elif name in ("max_eq", "max_leq", "min_eq", "min_geq"):
         for n in range(2, max_n + 2):
@@ -323,7 +325,7 @@ def strategy(prop, tier, allow_zero_cap=False):
 # jobs
 # ----------------------------------------------------------------------------------------------
 SCOPE_LEVEL = {"quick": 1, "thorough": 2}
-RAND_EXAMPLES = {"quick": 1500, "thorough": 20000}
+RAND_EXAMPLES = {"quick": 5000, "thorough": 60000}
 
 
 def in_small_scope(case, level):
